@@ -83,7 +83,17 @@ class Base(probe.Contract):
             snaps.append(Snap(t))
             if probe.S.depth == 0:
                 probe.register_live(t, self.api + ':arg')
-        return {'snaps': snaps, 'tts': tts, 'target': self.inplace(args, kwargs)}
+        from .contracts_api import snapshot_plain
+        return {'snaps': snaps, 'tts': tts, 'target': self.inplace(args, kwargs), 'plain': snapshot_plain(args, kwargs)}
+
+    def plain_unchanged(self, st, raised=False):
+        """list-valued options (per-bond max_rank, index lists, factor lists) are the caller's: a call must not rewrite them.
+        Reported under the property whose statement quantifies over that option (requested maximum ranks: C04), otherwise under
+        the contract's own property."""
+        from .contracts_api import check_plain
+        for item in st.get('plain') or []:
+            prop = 'C04' if item[0] == 'max_rank' or (self.api.startswith('TT.ortho') and not isinstance(item[0], str)) else self.prop
+            check_plain(self.api, [item], raised, prop=prop)
 
     def immut(self, st):
         c = core.ctx()
@@ -99,11 +109,13 @@ class Base(probe.Contract):
     def exc(self, st, e, args, kwargs):
         if st is not None:
             self.immut(st)
+            self.plain_unchanged(st, raised=True)
 
     def post(self, st, res, args, kwargs):
         if st is None:
             return
         self.immut(st)
+        self.plain_unchanged(st)
         check_returned(self.api, res)
         if any(s is None for s in st['snaps']):
             return
@@ -816,6 +828,9 @@ class OrthoBase(Base):
         if not ok:
             return
         thr, mr = v['threshold'], v['max_rank']
+        for (key, obj, before) in st.get('plain') or []:
+            if obj is mr:
+                mr = before  # the request as written by the caller at call time (the list may have been rewritten meanwhile)
         exact = (thr == 0) and (not isinstance(mr, list)) and mr == np.inf
         tags = ['side=' + self.side]
         Dold = s.dense_b()
@@ -927,7 +942,9 @@ class Init(probe.Contract):
     api = 'TT.__init__'
 
     def pre(self, args, kwargs):
+        from .contracts_api import snapshot_plain
         x = args[1] if len(args) > 1 else kwargs.get('x')
+        self._plain = snapshot_plain((), {k: v for k, v in kwargs.items() if k == 'max_rank'})
         if isinstance(x, np.ndarray) and x.size <= MAX_DENSE:
             return {'x': np.array(x, copy=True)}
         return None
@@ -935,6 +952,8 @@ class Init(probe.Contract):
     def post(self, st, res, args, kwargs):
         t = args[0]
         c = core.ctx()
+        from .contracts_api import check_plain
+        check_plain(self.api, getattr(self, '_plain', None), prop='C04')
         ok, why = tt_consistent(t)
         c.check(self.api, 'consistent_after', ok, (), {'why': why}, prop='C06')
         if probe.S.depth == 0 and ok:
